@@ -18,6 +18,7 @@ import Driver.C17
 import Driver.C18
 import Driver.C19
 import Driver.C20
+import Driver.Rx
 open Scrapli Driver
 
 /-- one request line in, one answer line out; the first token selects the property handler -/
@@ -43,6 +44,7 @@ def handle (line : String) : String :=
   | "c18" :: rest => handleC18 rest
   | "c19" :: rest => handleC19 rest
   | "c20" :: rest => handleC20 rest
+  | "rx" :: rest => handleRx rest
   | ["echo", h] => match fromHex h with
     | some b => toHex b
     | none => "bad-op"
